@@ -3,6 +3,21 @@ use std::io::Read;
 use crate::error::{ErrorKind, RusticError, RusticResult};
 
 /// `ChunkIter` is an iterator that chunks data.
+/// Check the parameters of the fixed-size chunker
+///
+/// # Errors
+///
+/// * If the chunk size is zero (no data could ever be chunked)
+pub(crate) fn check_fixed_size_params(chunk_size: usize) -> RusticResult<()> {
+    if chunk_size == 0 {
+        return Err(RusticError::new(
+            ErrorKind::Unsupported,
+            "Chunk size must not be 0 for the fixed-size chunker.",
+        ));
+    }
+    Ok(())
+}
+
 pub(crate) struct ChunkIter<R: Read + Send> {
     /// The reader.
     reader: R,
